@@ -87,12 +87,12 @@ D4_SERVER = {'base', 'base-early', 'selfcancel', 'base-after-send'}
 PEER = {
     'ok': [(0.5, 'headers'), (0.75, 'data'), (1, 'trailers:0')],
     'ok-slow': [(4, 'headers'), (5, 'data'), (6, 'trailers:0')],
-    'hold': [(30, 'headers'), (30, 'data'), (30, 'trailers:0')],
+    'hold': [(30, 'headers'), (30.25, 'data'), (30.5, 'trailers:0')],
     'nonok': [(0.5, 'headers'), (1, 'trailers:5')],
     'nonok-norst': [(0.5, 'headers'), (1, 'trailers:5:norst')],
     'only-nonok': [(0.5, 'only:7')], 'only-ok': [(0.5, 'only:0')], 'only-norst': [(0.5, 'only:12:norst')],
     'rst': [(0.5, 'rst')], 'rst-now': [(0, 'rst')], 'rst-after-headers': [(0.5, 'headers'), (1, 'rst')],
-    'rst-after-trailers': [(0.5, 'headers'), (0.75, 'data'), (1, 'trailers:0'), (1, 'rst')],
+    'rst-after-trailers': [(0.5, 'headers'), (0.75, 'data'), (1, 'trailers:0'), (1.25, 'rst')],
     'never': [],
 }
 
@@ -189,7 +189,7 @@ def oracle(run):
         return U.leak_class(run, c)
 
     def agg(cs):
-        cl = [cls_of(c) for c in cs if run.st[c].released] or [cls_of(None)]
+        cl = [cls_of(c if run.st[c].released else None) for c in cs] or [cls_of(None)]
         first = cl[0]
         return first if all(x == first for x in cl) else {'handler_end': 'mixed', 'terminal_frame': 'mixed',
                                                           'reset_received': False}
@@ -263,6 +263,15 @@ def evaluate(ctx, res, cases):
         res.sample({'case': case, 'ops': ' '.join(run.tokens[:60]), 'final': {k: final[k] for k in
                                                                              ('creg', 'sreg', 'out', 'in', 'h2')},
                     'probe': run.probe}, limit=4)
+        if run.conn_closed:
+            # the scenario left the domain of the property (a live connection)
+            res.disagreements.append({'case': case, 'model': None, 'impl': {'connection_closed': True}})
+        if case.get('witness') == 'd4_witness':
+            # the witness of C10_no_open_streams_server_refuted (Proofs/C10Proofs.v: d4_witness), op for op
+            ops = [t for t in run.tokens if t != 'K']
+            if ops != ['o:0:0', 'e:0', 'd:0', 'd:0', 'q:0:base']:
+                res.disagreements.append({'case': case, 'model': 'd4_witness', 'impl': ops})
+            res.count('coq-witness-replayed-on-code')
         if ctx.model_ok:
             ans = next(answers)
             res.traces += 1
@@ -289,7 +298,7 @@ def run(ctx):
                 'of the byte stream (link).  distinct = distinct (set-up, multiset of (cardinality, client '
                 'program, peer program, deadline?), announced limits, waiters occurred)')
     cases = list(ctx.corpus())
-    n = ctx.n(110, 2500)
+    n = ctx.n(900, 8000)
     for _ in range(n):
         cases.append(gen_case(rng, 'link'))
     for _ in range(n):
